@@ -187,7 +187,9 @@ class Check:
             with open(path, "w") as f:
                 json.dump({"property": self.prop, "signature": sig, "count": len(vs), "seed": self.seed,
                            "tier": self.tier, "first": vs[0]}, f, indent=1)
-            lines.append("VIOLATION property=%s replay=%s signature=%s count=%d" % (self.prop, path, sig, len(vs)))
+            # the interface line, exactly as specified, followed by a detail line
+            lines.append("VIOLATION property=%s replay=%s" % (self.prop, path))
+            lines.append("  detail: signature=%s count=%d" % (sig, len(vs)))
         total_inc = sum(self.inconclusive.values())
         if not self.samples:
             self.samples = self._fallback[:3]
